@@ -90,71 +90,53 @@ def constructor_table(F, an, enum_path):
     if len(cands) != 1:
         raise AnchorLost("parameter constructor (fn(&%s) -> Option<P>) not unique: %s" % (enum_path, [c[0].path for c in cands]))
     f, padt = cands[0]
-    # the switch on the enum discriminant
-    sw = None
-    for b, t in f.iter_terms():
-        if t["k"] == "switch":
-            l = core.op_local(t["discr"])
-            ds = f.defs_of(l) if l is not None else []
-            if ds and ds[0][1] != "term" and ds[0][2]["k"] == "assign" and ds[0][2]["rv"]["k"] == "discr":
-                sw = (b, t, ds[0][2]["rv"].get("variants", []))
-    if sw is None:
-        raise AnchorLost("no discriminant switch in %s" % f.path)
-    names = {v: n for v, n in sw[2]}
+    # variant names and discriminant values: from any `discriminant(..)` read of the enum in the constructor
+    names = {}
+    for b_, i_, st_ in f.iter_stmts():
+        if st_["k"] == "assign" and st_["rv"]["k"] == "discr" and st_["rv"].get("adt") == enum_path:
+            names = {v: n for v, n in st_["rv"].get("variants", [])}
+    if not names:
+        raise AnchorLost("no discriminant read of %s in %s" % (enum_path, f.path))
+    # rows are evaluated per variant by the interval analysis (whatever the shape of the match); the direct call is kept when
+    # the arm is a straight line to the constructor call (diagnostics only)
     rows = {}
-    for val, bb in sw[1]["targets"]:
-        # follow straight-line successors to the call constructing P
-        cur = bb
-        steps = 0
-        found = None
-        while steps < 12:
-            steps += 1
-            t = f.blocks[cur]["term"]
-            if t["k"] == "call":
-                dty = f.locals[t["dest"]["local"]]["ty"]
-                if dty.get("path") == padt and not t["dest"]["proj"]:
-                    found = (cur, t)
-                    break
-            ss = f.succ[cur]
-            if len(ss) != 1:
-                break
-            cur = ss[0]
-        rows[val] = {"variant": names.get(val), "call": found, "fn": f}
-    # field order from the constructor `new`
+    for val in sorted(names):
+        r = an.call_local(f.path, [None], {(1, ("#discr",)): (val, val)})
+        rows[val] = {"variant": names[val], "fn": f, "call": (f.path, None) if r.get(("#ok",)) == (1, 1) else None}
+    # field order of the parameter struct: the constructor function that builds it from its parameters
     order = None
-    for val, r in rows.items():
-        if r["call"]:
-            tps = F.call_targets(f, r["call"][1])
-            if tps:
-                g = F.fns[tps[0]]
-                for b, i, s in g.iter_stmts():
-                    if s["k"] == "assign" and s["rv"]["k"] == "aggregate" and s["rv"].get("path") == padt:
-                        order = {}
-                        for fname, op in zip(s["rv"]["fields"], s["rv"]["ops"]):
-                            org = flow.origin(g, op)
-                            if org[0] == "arg":
-                                order[org[1] - 1] = fname
-                break
+    for g in F.fns.values():
+        if g.j.get("output", {}).get("path") != padt:
+            continue
+        for b_, i_, s_ in g.iter_stmts():
+            if s_["k"] == "assign" and s_["rv"]["k"] == "aggregate" and s_["rv"].get("path") == padt and not g.blocks[b_]["cleanup"]:
+                o2 = {}
+                for fname, op in zip(s_["rv"]["fields"], s_["rv"]["ops"]):
+                    org = flow.origin(g, op)
+                    if org[0] == "arg":
+                        o2[org[1] - 1] = fname
+                if o2 and len(o2) == g.arg_count and (order is None or len(o2) > len(order)):
+                    order = o2   # every parameter of the constructor goes into a field (markers such as PhantomData aside)
     if order is None:
         raise AnchorLost("constructor of %s does not build the struct from its parameters" % padt)
     return f, padt, order, rows
 
 
 def eval_rows(F, an, f, order, rows, binding):
-    """Evaluate the constructor arguments of every row under an assoc-const binding."""
+    """Evaluate the parameter struct every variant yields under an assoc-const binding: the constructor is analysed with the
+    discriminant of `self` fixed, the fields are read from the returned `Some(..)`."""
     out = {}
     with bind_assoc(an, binding):
         for val, r in rows.items():
-            if not r["call"]:
+            ret = an.call_local(f.path, [None], {(1, ("#discr",)): (val, val)})
+            if ret.get(("#ok",)) != (1, 1):
                 out[val] = None
                 continue
-            b, t = r["call"]
             vals = {}
-            for i, a in enumerate(t["args"]):
-                iv = an._try_const_operand(f, a)
-                vals[order.get(i, "arg%d" % i)] = iv
+            for i, fname in order.items():
+                vals[fname] = ret.get(("@Some", "0", fname))
             vals["#variant"] = r["variant"]
-            vals["#where"] = f.loc(b)
+            vals["#where"] = f.loc()
             out[val] = vals
     return out
 
